@@ -1,8 +1,10 @@
 (* Lemmas about the plan model (model/OffsetPlan.v): which member values every path is offset with.
-   The locality statements one would expect ("a path's effective end type and delta depend only on its own group and
-   on the delta passed to Execute") are FALSE of the faithful model -- refuted below with concrete group lists that are
-   replayed on the real code by the checks -- and are proved under the side conditions that exclude the two leaks. *)
-From Coq Require Import ZArith List Bool Floats Lia.
+   The model mirrors the code after the repairs of /verif/triage/offset-*.patch; with them the locality statements
+   ("a path's routine, effective end type, delta and arc steps depend only on its own group and on the delta passed to
+   Execute") hold for every list of groups and are proved here without side conditions.  The header of OffsetPlan.v
+   records the witnesses that refuted them for the code before the repairs.  What is still false -- one fill rule per
+   call, decided by the first oriented Polygon group -- is refuted at the end of this file. *)
+From Coq Require Import ZArith List Bool Floats Lia Permutation.
 From Clip Require Import base.Geom base.FloatModel model.OffsetPlan.
 Import ListNotations.
 
@@ -18,63 +20,128 @@ Lemma fabs_fneg x : fabs (fneg x) = fabs x.
 Proof. apply Prim2SF_inj. unfold fabs, fneg. rewrite !abs_spec, opp_spec. apply SFabs_opp. Qed.
 
 (* ------------------------------------------------------------------ the path loop *)
+
+(* the routine chosen for a path of [len] points when group_delta_ = gd *)
+Definition action_of (g : group) (gd : float) (len : nat) : action :=
+  if Nat.eqb len 1 then (if PrimFloat.ltb gd 1%float then ASkip else APoint (jt_eqb (g_join g) JRound))
+  else match end_of g len with EPolygon => APolygon | EJoined => AJoined | _ => AOpen end.
+
+(* what the geometry of a path depends on: length, group_delta_, join_type_, the routine, end_type_ (read by
+   OffsetOpenPath only, never for a single point) and the arc step constants (read only when the group's join or end
+   type is Round, [round_group]) *)
+Definition round_group (g : group) : bool := jt_eqb (g_join g) JRound || et_eqb (g_end g) ERound.
+
+Definition view_t := (nat * float * join_type * action * option end_type * option (option float))%type.
+
+Definition view (g : group) (e : pentry) : view_t :=
+  (pe_len e, pe_delta e, pe_join e, pe_action e,
+   if Nat.eqb (pe_len e) 1 then None else Some (pe_end e),
+   if round_group g then Some (pe_steps_for e) else None).
+
+Definition loop_view (g : group) (gd : float) (sf : option float) (len : nat) : view_t :=
+  (len, gd, g_join g, action_of g gd len,
+   if Nat.eqb len 1 then None else Some (end_of g len),
+   if round_group g then Some sf else None).
+
+(* the same from the group's own fields and the delta passed to Execute *)
+Definition own_view (g : group) (delta : float) (len : nat) : view_t :=
+  loop_view g (own_delta g delta) (if round_group g then Some (fabs (own_delta g delta)) else None) len.
+
+Lemma path_loop_views gi g gd md sf lens : forall pi et,
+  map (view g) (snd (path_loop gi g gd md sf pi lens et)) = map (loop_view g gd sf) lens.
+Proof.
+  induction lens as [|len rest IH]; intros pi et; [reflexivity|].
+  cbn [path_loop].
+  destruct (Nat.eqb len 1) eqn:E1.
+  - specialize (IH (S pi) et).
+    destruct (path_loop gi g gd md sf (S pi) rest et) as [et' es]. cbn [snd map] in *.
+    rewrite IH. f_equal. unfold view, loop_view, action_of. cbn. rewrite E1. reflexivity.
+  - specialize (IH (S pi) (end_of g len)).
+    destruct (path_loop gi g gd md sf (S pi) rest (end_of g len)) as [et' es]. cbn [snd map] in *.
+    rewrite IH. f_equal. unfold view, loop_view, action_of. cbn. rewrite E1. reflexivity.
+Qed.
+
 Lemma path_loop_entries gi g gd md sf lens : forall pi et e,
   In e (snd (path_loop gi g gd md sf pi lens et)) ->
   pe_group e = gi /\ pe_delta e = gd /\ pe_mdelta e = md /\ pe_join e = g_join g /\ pe_steps_for e = sf
-  /\ In (pe_len e) lens.
+  /\ In (pe_len e) lens /\ pe_action e = action_of g gd (pe_len e)
+  /\ (pe_len e <> 1%nat -> pe_end e = end_of g (pe_len e)).
 Proof.
   induction lens as [|len rest IH]; intros pi et e H; [contradiction|].
   cbn [path_loop] in H.
   destruct (Nat.eqb len 1) eqn:E1.
   - destruct (path_loop gi g gd md sf (S pi) rest et) as [et' es] eqn:EL. cbn [snd] in H.
-    destruct H as [<- | H]; [cbn; repeat split; auto; left; reflexivity|].
-    specialize (IH (S pi) et e). rewrite EL in IH. cbn [snd] in IH.
-    destruct (IH H) as (?&?&?&?&?&?). repeat split; auto. right; assumption.
-  - set (et1 := if Nat.eqb len 2 && et_eqb (g_end g) EJoined then (if jt_eqb (g_join g) JRound then ERound else ESquare) else et) in *.
-    destruct (path_loop gi g gd md sf (S pi) rest et1) as [et' es] eqn:EL. cbn [snd] in H.
-    destruct H as [<- | H]; [cbn; repeat split; auto; left; reflexivity|].
-    specialize (IH (S pi) et1 e). rewrite EL in IH. cbn [snd] in IH.
-    destruct (IH H) as (?&?&?&?&?&?). repeat split; auto. right; assumption.
+    destruct H as [<- | H].
+    + cbn. unfold action_of. rewrite E1. repeat split; auto.
+      intros Hne. apply Nat.eqb_eq in E1. congruence.
+    + specialize (IH (S pi) et e). rewrite EL in IH. cbn [snd] in IH.
+      destruct (IH H) as (?&?&?&?&?&?&?&?). repeat split; auto. right; assumption.
+  - destruct (path_loop gi g gd md sf (S pi) rest (end_of g len)) as [et' es] eqn:EL. cbn [snd] in H.
+    destruct H as [<- | H].
+    + cbn. unfold action_of. rewrite E1. repeat split; auto.
+    + specialize (IH (S pi) (end_of g len) e). rewrite EL in IH. cbn [snd] in IH.
+      destruct (IH H) as (?&?&?&?&?&?&?&?). repeat split; auto. right; assumption.
 Qed.
 
-(* no two-point path in a Joined group: the only place where end_type_ is written inside the loop *)
-Definition no_joined_2pt (g : group) : bool :=
-  negb (et_eqb (g_end g) EJoined && existsb (Nat.eqb 2) (g_lens g)).
-
-Lemma path_loop_end_local gi g gd md sf lens : forall pi,
-  (forall len, In len lens -> Nat.eqb len 2 && et_eqb (g_end g) EJoined = false) ->
-  fst (path_loop gi g gd md sf pi lens (g_end g)) = g_end g /\
-  forall e, In e (snd (path_loop gi g gd md sf pi lens (g_end g))) -> pe_end e = g_end g.
+(* the paths of a group are numbered in input order *)
+Lemma path_loop_paths gi g gd md sf lens : forall pi et,
+  map pe_path (snd (path_loop gi g gd md sf pi lens et)) = seq pi (length lens).
 Proof.
-  induction lens as [|len rest IH]; intros pi Hno; [split; [reflexivity|contradiction]|].
+  induction lens as [|len rest IH]; intros pi et; [reflexivity|].
   cbn [path_loop].
-  assert (Hrest : forall l, In l rest -> Nat.eqb l 2 && et_eqb (g_end g) EJoined = false) by (intros; apply Hno; right; assumption).
-  destruct (Nat.eqb len 1) eqn:E1.
-  - specialize (IH (S pi) Hrest).
-    destruct (path_loop gi g gd md sf (S pi) rest (g_end g)) as [et' es] eqn:EL. cbn [fst snd] in *.
-    destruct IH as [IH1 IH2]. split; [exact IH1|].
-    intros e [<- | H]; [reflexivity|auto].
-  - rewrite (Hno len (or_introl eq_refl)).
-    specialize (IH (S pi) Hrest).
-    destruct (path_loop gi g gd md sf (S pi) rest (g_end g)) as [et' es] eqn:EL. cbn [fst snd] in *.
-    destruct IH as [IH1 IH2]. split; [exact IH1|].
-    intros e [<- | H]; [reflexivity|auto].
+  destruct (Nat.eqb len 1).
+  - specialize (IH (S pi) et). destruct (path_loop gi g gd md sf (S pi) rest et) as [et' es].
+    cbn [snd map length seq] in *. rewrite IH. reflexivity.
+  - specialize (IH (S pi) (end_of g len)). destruct (path_loop gi g gd md sf (S pi) rest (end_of g len)) as [et' es].
+    cbn [snd map length seq] in *. rewrite IH. reflexivity.
 Qed.
 
-Lemma no_joined_2pt_spec g : no_joined_2pt g = true ->
-  forall len, In len (g_lens g) -> Nat.eqb len 2 && et_eqb (g_end g) EJoined = false.
+(* ------------------------------------------------------------------ one group *)
+Definition group_gd (g : group) (md : float) : float :=
+  match g_end g with
+  | EPolygon => let d := if g_has_lowest g then md else fabs md in if g_reversed g then fneg d else d
+  | _ => fabs md
+  end.
+
+Lemma group_gd_own g md : group_gd g md = own_delta g md.
+Proof. reflexivity. Qed.
+
+Definition group_sf (g : group) (st : ostate) : option float :=
+  if round_group g then Some (fabs (group_gd g (s_delta st))) else s_steps_for st.
+
+Lemma do_group_unfold gi g st :
+  do_group gi g st =
+  (let '(et', es) := path_loop gi g (group_gd g (s_delta st)) (s_delta st) (group_sf g st) 0 (g_lens g) (g_end g) in
+   (mkState (s_delta st) (group_gd g (s_delta st)) (g_join g) et' (group_sf g st), es)).
+Proof. reflexivity. Qed.
+
+(* delta_ is not changed by DoGroupOffset *)
+Lemma do_group_delta gi g st : s_delta (fst (do_group gi g st)) = s_delta st.
+Proof. rewrite do_group_unfold. destruct (path_loop _ _ _ _ _ _ _ _). reflexivity. Qed.
+
+Lemma do_group_entries gi g st e : In e (snd (do_group gi g st)) ->
+  pe_group e = gi /\ pe_join e = g_join g /\ In (pe_len e) (g_lens g) /\
+  pe_mdelta e = s_delta st /\ pe_delta e = own_delta g (s_delta st) /\
+  pe_action e = own_action g (s_delta st) (pe_len e) /\
+  (pe_len e <> 1%nat -> pe_end e = end_of g (pe_len e)) /\
+  (round_group g = true -> pe_steps_for e = Some (fabs (own_delta g (s_delta st)))).
 Proof.
-  unfold no_joined_2pt. intros H len Hin.
-  destruct (et_eqb (g_end g) EJoined) eqn:EJ; [|apply andb_false_r].
-  cbn [andb negb] in H. apply negb_true_iff in H.
-  destruct (Nat.eqb len 2) eqn:E2; [|reflexivity].
-  exfalso. assert (existsb (Nat.eqb 2) (g_lens g) = true).
-  { apply existsb_exists. exists len. split; [assumption|]. rewrite Nat.eqb_sym. exact E2. }
-  congruence.
+  rewrite do_group_unfold. intros H.
+  pose proof (path_loop_entries gi g (group_gd g (s_delta st)) (s_delta st) (group_sf g st) (g_lens g) 0 (g_end g) e) as L.
+  destruct (path_loop _ _ _ _ _ _ _ _) as [et' es]. cbn [fst snd] in *.
+  destruct (L H) as (?&?&?&?&Hsf&?&?&?). repeat split; auto.
+  intros HR. rewrite Hsf. unfold group_sf. rewrite HR. reflexivity.
 Qed.
 
-Lemma end_of_no_joined g len : Nat.eqb len 2 && et_eqb (g_end g) EJoined = false -> end_of g len = g_end g.
-Proof. unfold end_of. intros ->. reflexivity. Qed.
+Lemma do_group_views gi g st :
+  map (view g) (snd (do_group gi g st)) = map (own_view g (s_delta st)) (g_lens g).
+Proof.
+  rewrite do_group_unfold.
+  pose proof (path_loop_views gi g (group_gd g (s_delta st)) (s_delta st) (group_sf g st) (g_lens g) 0 (g_end g)) as L.
+  destruct (path_loop _ _ _ _ _ _ _ _) as [et' es]. cbn [snd] in *. rewrite L.
+  apply map_ext. intros len. unfold own_view, loop_view, group_sf. rewrite group_gd_own.
+  destruct (round_group g); reflexivity.
+Qed.
 
 (* ------------------------------------------------------------------ the group loop, generically *)
 Lemma groups_loop_inv (P : ostate -> Prop) (Q : nat -> group -> pentry -> Prop) (gs : list group) :
@@ -99,66 +166,48 @@ Proof.
     exists (S k), g'. split; [exact Hk|]. replace (gi + S k)%nat with (S gi + k)%nat by lia. exact HQ'.
 Qed.
 
-Lemma do_group_entries gi g st e : In e (snd (do_group gi g st)) ->
-  pe_group e = gi /\ pe_join e = g_join g /\ In (pe_len e) (g_lens g) /\
-  pe_mdelta e = s_delta (fst (do_group gi g st)) /\ pe_delta e = s_gdelta (fst (do_group gi g st)).
+(* every entry of a plan, described from its own group and the delta passed to Execute *)
+Theorem plan_entry_local (gs : list group) (delta : float) (e : pentry) :
+  In e (plan gs delta) ->
+  exists g, nth_error gs (pe_group e) = Some g /\
+    In (pe_len e) (g_lens g) /\
+    pe_join e = g_join g /\
+    pe_mdelta e = delta /\
+    pe_delta e = own_delta g delta /\
+    pe_action e = own_action g delta (pe_len e) /\
+    (pe_len e <> 1%nat -> pe_end e = end_of g (pe_len e)) /\
+    (round_group g = true -> pe_steps_for e = Some (fabs (own_delta g delta))).
 Proof.
-  unfold do_group.
-  set (md := match g_end g with EPolygon => if negb (g_has_lowest g) then fabs (s_delta st) else s_delta st | _ => s_delta st end).
-  set (gd := match g_end g with EPolygon => if g_reversed g then fneg md else md | _ => fabs md end).
-  set (sf := if jt_eqb (g_join g) JRound || et_eqb (g_end g) ERound then Some (fabs gd) else s_steps_for st).
-  intros H.
-  pose proof (path_loop_entries gi g gd md sf (g_lens g) 0 (g_end g) e) as L.
-  destruct (path_loop gi g gd md sf 0 (g_lens g) (g_end g)) as [et' es] eqn:EL. cbn [fst snd] in *.
-  destruct (L H) as (?&?&?&?&?&?). repeat split; auto.
+  intros He. unfold plan, plan_from in He.
+  pose proof (groups_loop_inv (fun st => s_delta st = delta)
+               (fun gi g e => pe_group e = gi /\ In (pe_len e) (g_lens g) /\ pe_join e = g_join g /\ pe_mdelta e = delta /\
+                              pe_delta e = own_delta g delta /\ pe_action e = own_action g delta (pe_len e) /\
+                              (pe_len e <> 1%nat -> pe_end e = end_of g (pe_len e)) /\
+                              (round_group g = true -> pe_steps_for e = Some (fabs (own_delta g delta)))) gs) as L.
+  destruct (L) with (gi := 0%nat) (st := mkState delta (s_gdelta init_state) (s_join init_state) (s_end init_state) (s_steps_for init_state)) (e := e)
+    as (k & g & Hk & Hg & HQ); [| reflexivity | exact He |].
+  - intros gi g st Hin HP. split.
+    + rewrite do_group_delta. exact HP.
+    + intros e0 H0. destruct (do_group_entries gi g st e0 H0) as (?&?&?&?&?&?&?&?).
+      rewrite HP in *. repeat split; auto.
+  - exists g. rewrite Hg. cbn [Nat.add]. split; [assumption|exact HQ].
 Qed.
 
 (* ------------------------------------------------------------------ C06: orientation *)
 
-(* sign of the effective delta of a polygon path = sign of delta xor is_reversed of its OWN group, i.e.
-   group_delta_ = own_delta g delta.  True when every Polygon group has a lowest path ... *)
-Theorem orientation_plan_partial (gs : list group) (delta : float) (e : pentry) :
-  (forall g, In g gs -> g_end g = EPolygon -> g_has_lowest g = true) ->
+(* group_delta_ of every path = own_delta of its OWN group; for a Polygon group that has a lowest path this is delta
+   itself, negated exactly when the group is reversed *)
+Theorem orientation_plan (gs : list group) (delta : float) (e : pentry) :
   In e (plan gs delta) ->
-  exists g, nth_error gs (pe_group e) = Some g /\ (g_end g = EPolygon -> pe_delta e = own_delta g delta).
+  exists g, nth_error gs (pe_group e) = Some g /\ pe_delta e = own_delta g delta /\
+            (g_end g = EPolygon -> g_has_lowest g = true -> pe_delta e = if g_reversed g then fneg delta else delta).
 Proof.
-  intros Hlow He. unfold plan, plan_from in He.
-  pose proof (groups_loop_inv (fun st => s_delta st = delta)
-               (fun gi g e => pe_group e = gi /\ (g_end g = EPolygon -> pe_delta e = own_delta g delta)) gs) as L.
-  destruct (L) with (gi := 0%nat) (st := mkState delta (s_gdelta init_state) (s_join init_state) (s_end init_state) (s_steps_for init_state)) (e := e)
-    as (k & g & Hk & Hg & Hd); [| reflexivity | exact He |].
-  - intros gi g st Hin HP. split.
-    + unfold do_group. destruct (path_loop _ _ _ _ _ _ _ _) as [et' es]. cbn [fst s_delta].
-      destruct (g_end g) eqn:EE; try exact HP.
-      rewrite (Hlow g Hin EE). cbn [negb]. exact HP.
-    + intros e0 H0. destruct (do_group_entries gi g st e0 H0) as (Hgi & _ & _ & _ & Hgd).
-      split; [exact Hgi|]. intros EE. rewrite Hgd.
-      unfold do_group, own_delta. destruct (path_loop _ _ _ _ _ _ _ _) as [et' es]. cbn [fst s_gdelta].
-      rewrite EE, (Hlow g Hin EE), HP. reflexivity.
-  - exists g. rewrite Hg. cbn [Nat.add]. split; assumption.
+  intros He. destruct (plan_entry_local gs delta e He) as (g & Hg & _ & _ & _ & Hd & _).
+  exists g. split; [exact Hg|]. split; [exact Hd|].
+  intros EE HL. rewrite Hd. unfold own_delta. rewrite EE, HL. reflexivity.
 Qed.
 
-(* ... and false in general: an EndType::Polygon group without a lowest path (one empty path) executes
-   delta_ = std::abs(delta_), and the following group is inflated although delta is negative. *)
-Definition orientation_witness : list group :=
-  [ mkGroup [0%nat] JSquare EPolygon false false; mkGroup [4%nat] JSquare EPolygon true false ].
-
-Theorem orientation_plan_refuted :
-  exists gs delta e g,
-    In e (plan gs delta) /\ nth_error gs (pe_group e) = Some g /\ g_end g = EPolygon /\ insignificant delta = false /\
-    pe_delta e <> own_delta g delta /\
-    PrimFloat.ltb (pe_delta e) 0 <> xorb (PrimFloat.ltb delta 0) (g_reversed g).
-Proof.
-  exists orientation_witness, (-10)%float.
-  exists (mkEntry 1 0 4 10%float JSquare EPolygon APolygon None 10%float), (mkGroup [4%nat] JSquare EPolygon true false).
-  split; [vm_compute; right; left; reflexivity|].
-  split; [reflexivity|]. split; [reflexivity|]. split; [reflexivity|].
-  split.
-  - intro H. apply (f_equal (fun x => PrimFloat.ltb x 0)) in H. vm_compute in H. discriminate.
-  - vm_compute. discriminate.
-Qed.
-
-(* ------------------------------------------------------------------ C06: early return *)
+(* ------------------------------------------------------------------ C06: early return, fill rule, reversal flag *)
 Theorem small_delta_identity (rev : bool) (gs : list group) (delta : float) :
   gs <> [] ->
   (insignificant delta = true -> x_mode (execute_plan rev gs delta) = XIdentity) /\
@@ -171,65 +220,167 @@ Proof.
   repeat split; intros; try reflexivity; rewrite H; reflexivity.
 Qed.
 
-(* ------------------------------------------------------------------ C07: locality of the end type and |delta| *)
-Theorem plan_local_partial (gs : list group) (delta : float) (e : pentry) :
-  (forall g, In g gs -> no_joined_2pt g = true) ->
-  In e (plan gs delta) ->
-  exists g, nth_error gs (pe_group e) = Some g /\ pe_end e = end_of g (pe_len e).
+(* a Polygon group that has an orientation: it has a lowest path *)
+Definition oriented (g : group) : bool := et_eqb (g_end g) EPolygon && g_has_lowest g.
+
+(* a group without any vertex (no lowest path) does not take part in the decision (the empty-group-orientation repair) *)
+Lemma check_reverse_skips g t : oriented g = false -> check_reverse (g :: t) = check_reverse t.
+Proof. unfold oriented. intros H. cbn [check_reverse]. rewrite H. reflexivity. Qed.
+
+(* when all oriented Polygon groups of the call agree, fill rule and reversal flag are that orientation, wherever the
+   groups stand in the list *)
+Theorem check_reverse_consistent (gs : list group) (r : bool) :
+  (forall g, In g gs -> oriented g = true -> g_reversed g = r) ->
+  (exists g, In g gs /\ oriented g = true) ->
+  check_reverse gs = r.
 Proof.
-  intros Hno He. unfold plan, plan_from in He.
-  pose proof (groups_loop_inv (fun _ => True)
-               (fun gi g e => pe_group e = gi /\ pe_end e = end_of g (pe_len e)) gs) as L.
-  destruct (L) with (gi := 0%nat) (st := mkState delta (s_gdelta init_state) (s_join init_state) (s_end init_state) (s_steps_for init_state)) (e := e)
-    as (k & g & Hk & Hg & Hd); [| exact I | exact He |].
-  - intros gi g st Hin _. split; [exact I|].
-    intros e0 H0. destruct (do_group_entries gi g st e0 H0) as (Hgi & _ & Hlen & _ & _).
-    split; [exact Hgi|].
-    pose proof (no_joined_2pt_spec g (Hno g Hin)) as Hs.
-    rewrite (end_of_no_joined g (pe_len e0) (Hs _ Hlen)).
-    unfold do_group in H0.
-    match type of H0 with context [path_loop ?a ?b ?c ?d ?f ?p ?l ?t] =>
-      pose proof (path_loop_end_local a b c d f l p Hs) as [_ HE];
-      destruct (path_loop a b c d f p l t) as [et' es] eqn:EL end.
-    cbn [snd] in *. apply HE. exact H0.
-  - exists g. rewrite Hg. cbn [Nat.add]. split; assumption.
+  induction gs as [|g t IH]; intros Hall [g0 [Hin Ho]]; [contradiction|].
+  cbn [check_reverse]. fold (oriented g).
+  destruct (oriented g) eqn:E.
+  - apply Hall; [left; reflexivity|exact E].
+  - apply IH.
+    + intros g' Hin' Ho'. apply Hall; [right; assumption|assumption].
+    + destruct Hin as [<- | Hin]; [congruence|]. exists g0. split; assumption.
 Qed.
 
-(* the magnitude part holds unconditionally for open groups: group_delta_ = |delta| *)
-Theorem plan_delta_local (gs : list group) (delta : float) (e : pentry) :
-  In e (plan gs delta) ->
-  exists g, nth_error gs (pe_group e) = Some g /\ (g_end g <> EPolygon -> pe_delta e = fabs delta).
+Lemma check_reverse_none (gs : list group) :
+  (forall g, In g gs -> oriented g = false) -> check_reverse gs = false.
 Proof.
-  intros He. unfold plan, plan_from in He.
-  pose proof (groups_loop_inv (fun st => s_delta st = delta \/ s_delta st = fabs delta)
-               (fun gi g e => pe_group e = gi /\ (g_end g <> EPolygon -> pe_delta e = fabs delta)) gs) as L.
-  destruct (L) with (gi := 0%nat) (st := mkState delta (s_gdelta init_state) (s_join init_state) (s_end init_state) (s_steps_for init_state)) (e := e)
-    as (k & g & Hk & Hg & Hd); [| left; reflexivity | exact He |].
-  - intros gi g st Hin HP. split.
-    + unfold do_group. destruct (path_loop _ _ _ _ _ _ _ _) as [et' es]. cbn [fst s_delta].
-      destruct (g_end g); try exact HP.
-      destruct (negb (g_has_lowest g)); [|exact HP].
-      right. destruct HP as [-> | ->]; [reflexivity|apply fabs_idem].
-    + intros e0 H0. destruct (do_group_entries gi g st e0 H0) as (Hgi & _ & _ & _ & Hgd).
-      split; [exact Hgi|]. intros EE. rewrite Hgd.
-      unfold do_group. destruct (path_loop _ _ _ _ _ _ _ _) as [et' es]. cbn [fst s_gdelta].
-      destruct (g_end g); try congruence; destruct HP as [-> | ->]; try reflexivity; apply fabs_idem.
-  - exists g. rewrite Hg. cbn [Nat.add]. split; assumption.
+  induction gs as [|g t IH]; intros Hall; [reflexivity|].
+  cbn [check_reverse]. fold (oriented g). rewrite (Hall g (or_introl eq_refl)).
+  apply IH. intros g' Hin. apply Hall. right; assumption.
 Qed.
 
-(* the full locality statement is false: in an EndType::Joined group a two-point path switches end_type_ to Square
-   (Round for round joins) and the following three-point path is stroked as an open path instead of being joined *)
-Definition endtype_witness : list group := [ mkGroup [2%nat; 3%nat] JSquare EJoined false false ].
-
-Theorem plan_local_refuted :
-  exists gs delta e g,
-    In e (plan gs delta) /\ nth_error gs (pe_group e) = Some g /\ insignificant delta = false /\
-    pe_end e <> end_of g (pe_len e) /\ pe_action e = AOpen /\ end_of g (pe_len e) = EJoined.
+Theorem orientation_preserved (rev : bool) (gs : list group) (delta : float) (r : bool) :
+  (forall g, In g gs -> oriented g = true -> g_reversed g = r) ->
+  (exists g, In g gs /\ oriented g = true) ->
+  x_fill_negative (execute_plan rev gs delta) = r /\ x_reverse_solution (execute_plan rev gs delta) = xorb rev r.
 Proof.
-  exists endtype_witness, 10%float.
-  exists (mkEntry 0 1 3 10%float JSquare ESquare AOpen None 10%float), (mkGroup [2%nat; 3%nat] JSquare EJoined false false).
-  split; [vm_compute; right; left; reflexivity|].
-  repeat split; try reflexivity. cbn. discriminate.
+  intros Hall Hex.
+  assert (Hne : gs <> []) by (destruct Hex as [g [Hin _]]; destruct gs; [contradiction|discriminate]).
+  destruct (small_delta_identity rev gs delta Hne) as (_ & _ & Hf & Hr).
+  rewrite Hf, Hr, (check_reverse_consistent gs r Hall Hex). split; reflexivity.
+Qed.
+
+(* ------------------------------------------------------------------ C07: locality of routine, end type and |delta| *)
+Theorem plan_local (gs : list group) (delta : float) (e : pentry) :
+  In e (plan gs delta) ->
+  exists g, nth_error gs (pe_group e) = Some g /\
+    pe_action e = own_action g delta (pe_len e) /\
+    (pe_len e <> 1%nat -> pe_end e = end_of g (pe_len e)) /\
+    (g_end g <> EPolygon -> pe_delta e = fabs delta).
+Proof.
+  intros He. destruct (plan_entry_local gs delta e He) as (g & Hg & _ & _ & _ & Hd & Ha & Hend & _).
+  exists g. repeat split; auto.
+  intros Hne. rewrite Hd. unfold own_delta. destruct (g_end g); congruence.
+Qed.
+
+(* ------------------------------------------------------------------ C12: order independence *)
+Definition entries_of (i : nat) (es : list pentry) : list pentry := filter (fun e => Nat.eqb (pe_group e) i) es.
+
+Lemma filter_all {A} (f : A -> bool) l : (forall x, In x l -> f x = true) -> filter f l = l.
+Proof.
+  induction l as [|a t IH]; intros H; [reflexivity|]. cbn. rewrite (H a (or_introl eq_refl)).
+  f_equal. apply IH. intros; apply H; right; assumption.
+Qed.
+Lemma filter_none {A} (f : A -> bool) l : (forall x, In x l -> f x = false) -> filter f l = [].
+Proof.
+  induction l as [|a t IH]; intros H; [reflexivity|]. cbn. rewrite (H a (or_introl eq_refl)).
+  apply IH. intros; apply H; right; assumption.
+Qed.
+
+Lemma groups_loop_group_ge gs : forall gi st e, In e (snd (groups_loop gi gs st)) -> (gi <= pe_group e)%nat.
+Proof.
+  induction gs as [|g t IH]; intros gi st e He; [contradiction|].
+  cbn [groups_loop] in He.
+  destruct (do_group gi g st) as [st1 es] eqn:ED.
+  destruct (groups_loop (S gi) t st1) as [st2 es'] eqn:EG. cbn [snd] in He.
+  apply in_app_or in He. destruct He as [He | He].
+  - assert (H : In e (snd (do_group gi g st))) by (rewrite ED; exact He).
+    destruct (do_group_entries gi g st e H) as (-> & _). lia.
+  - specialize (IH (S gi) st1 e). rewrite EG in IH. specialize (IH He). lia.
+Qed.
+
+Lemma groups_loop_views gs delta : forall gi st i g,
+  s_delta st = delta -> nth_error gs i = Some g ->
+  map (view g) (entries_of (gi + i) (snd (groups_loop gi gs st))) = map (own_view g delta) (g_lens g).
+Proof.
+  induction gs as [|g0 t IH]; intros gi st i g Hd Hn; [destruct i; discriminate|].
+  cbn [groups_loop].
+  pose proof (do_group_views gi g0 st) as HV.
+  pose proof (do_group_delta gi g0 st) as HD.
+  pose proof (do_group_entries gi g0 st) as HE.
+  destruct (do_group gi g0 st) as [st1 es] eqn:ED. cbn [fst snd] in *.
+  pose proof (groups_loop_group_ge t (S gi) st1) as HG.
+  specialize (IH (S gi) st1).
+  destruct (groups_loop (S gi) t st1) as [st2 es'] eqn:EG. cbn [snd] in *.
+  unfold entries_of in *. rewrite filter_app, map_app.
+  destruct i as [|i].
+  - cbn in Hn. injection Hn as ->. rewrite Nat.add_0_r.
+    rewrite (filter_all _ es), (filter_none _ es'), app_nil_r.
+    + rewrite HV, Hd. reflexivity.
+    + intros e He. specialize (HG e He). apply Nat.eqb_neq. lia.
+    + intros e He. destruct (HE e He) as (-> & _). apply Nat.eqb_refl.
+  - cbn in Hn. rewrite (filter_none _ es).
+    + cbn [map app]. replace (gi + S i)%nat with (S gi + i)%nat by lia.
+      apply IH; [rewrite HD; exact Hd|exact Hn].
+    + intros e He. destruct (HE e He) as (-> & _). apply Nat.eqb_neq. lia.
+Qed.
+
+(* the entries of group number i of a plan, in path order, seen through [view], are a function of that group and of
+   delta alone ... *)
+Theorem plan_group_views (gs : list group) (delta : float) (i : nat) (g : group) :
+  nth_error gs i = Some g ->
+  map (view g) (entries_of i (plan gs delta)) = map (own_view g delta) (g_lens g).
+Proof.
+  intros Hn. unfold plan, plan_from.
+  apply (groups_loop_views gs delta 0%nat _ i g); [reflexivity|exact Hn].
+Qed.
+
+(* ... hence the same whatever groups were added before or after it and in whatever order *)
+Theorem plan_order_independent (gs gs' : list group) (delta : float) (i j : nat) (g : group) :
+  nth_error gs i = Some g -> nth_error gs' j = Some g ->
+  map (view g) (entries_of i (plan gs delta)) = map (view g) (entries_of j (plan gs' delta)).
+Proof. intros H H'. rewrite (plan_group_views gs delta i g H), (plan_group_views gs' delta j g H'). reflexivity. Qed.
+
+(* ... and, within a group, a path's view does not depend on which paths stand before it: [own_view] does not read g_lens;
+   reordering the paths of a group (with the same lowest-path orientation) permutes the views *)
+Definition same_fields (g g' : group) : Prop :=
+  g_join g = g_join g' /\ g_end g = g_end g' /\ g_has_lowest g = g_has_lowest g' /\ g_reversed g = g_reversed g'.
+
+Lemma own_view_fields g g' delta len : same_fields g g' -> own_view g delta len = own_view g' delta len.
+Proof.
+  intros (Hj & He & Hl & Hr).
+  unfold own_view, loop_view, action_of, round_group, end_of, own_delta. rewrite Hj, He, Hl, Hr. reflexivity.
+Qed.
+
+Lemma view_fields g g' e : same_fields g g' -> view g e = view g' e.
+Proof. intros (Hj & He & _). unfold view, round_group. rewrite Hj, He. reflexivity. Qed.
+
+Theorem plan_path_order_independent (gs gs' : list group) (delta : float) (i j : nat) (g g' : group) :
+  nth_error gs i = Some g -> nth_error gs' j = Some g' ->
+  same_fields g g' -> Permutation (g_lens g) (g_lens g') ->
+  Permutation (map (view g) (entries_of i (plan gs delta))) (map (view g) (entries_of j (plan gs' delta))).
+Proof.
+  intros H H' HF HP.
+  rewrite (plan_group_views gs delta i g H).
+  rewrite (map_ext _ _ (fun e => view_fields g g' e HF)).
+  rewrite (plan_group_views gs' delta j g' H').
+  rewrite (map_ext _ _ (fun len => own_view_fields g g' delta len HF)).
+  apply Permutation_map. exact HP.
+Qed.
+
+(* What is NOT order independent (known finding offset.group-orientation.first-polygon-group-decides): the fill rule
+   of the clean-up union and the reversal flag are taken from the first oriented Polygon group, so with groups of
+   opposite orientation the order of the groups decides which of them survive the union. *)
+Theorem fill_rule_order_dependent_refuted :
+  exists gs gs' delta,
+    Permutation gs gs' /\ insignificant delta = false /\
+    x_fill_negative (execute_plan false gs delta) <> x_fill_negative (execute_plan false gs' delta).
+Proof.
+  exists [mkGroup [3%nat] JMiter EPolygon true false; mkGroup [6%nat] JMiter EPolygon true true],
+         [mkGroup [6%nat] JMiter EPolygon true true; mkGroup [3%nat] JMiter EPolygon true false], 10%float.
+  split; [apply perm_swap|]. split; [reflexivity|]. cbn. discriminate.
 Qed.
 
 (* ------------------------------------------------------------------ C07: +delta / -delta *)
@@ -247,7 +398,7 @@ Proof.
   - specialize (IH (S pi) et).
     destruct (path_loop gi g gd md sf (S pi) rest et) as [e1 l1], (path_loop gi g gd md' sf (S pi) rest et) as [e2 l2].
     cbn [fst snd] in *. destruct IH as [-> IH2]. split; [reflexivity|]. cbn [map]. rewrite IH2. reflexivity.
-  - set (et1 := if Nat.eqb len 2 && et_eqb (g_end g) EJoined then (if jt_eqb (g_join g) JRound then ERound else ESquare) else et).
+  - set (et1 := end_of g len).
     specialize (IH (S pi) et1).
     destruct (path_loop gi g gd md sf (S pi) rest et1) as [e1 l1], (path_loop gi g gd md' sf (S pi) rest et1) as [e2 l2].
     cbn [fst snd] in *. destruct IH as [-> IH2]. split; [reflexivity|]. cbn [map]. rewrite IH2. reflexivity.
@@ -262,19 +413,13 @@ Lemma do_group_open_sym gi g st st' :
   map strip (snd (do_group gi g st)) = map strip (snd (do_group gi g st')).
 Proof.
   intros Hop (Hd & Hj & He & Hs).
-  unfold do_group.
-  assert (Emd : (match g_end g with EPolygon => if negb (g_has_lowest g) then fabs (s_delta st') else s_delta st' | _ => s_delta st' end) = s_delta st')
-    by (destruct (g_end g); congruence).
-  assert (Emd0 : (match g_end g with EPolygon => if negb (g_has_lowest g) then fabs (s_delta st) else s_delta st | _ => s_delta st end) = s_delta st)
-    by (destruct (g_end g); congruence).
-  rewrite Emd, Emd0.
-  assert (Egd' : (match g_end g with EPolygon => if g_reversed g then fneg (s_delta st') else s_delta st' | _ => fabs (s_delta st') end) = fabs (s_delta st))
-    by (destruct (g_end g); try congruence; rewrite Hd; apply fabs_fneg).
-  assert (Egd : (match g_end g with EPolygon => if g_reversed g then fneg (s_delta st) else s_delta st | _ => fabs (s_delta st) end) = fabs (s_delta st))
-    by (destruct (g_end g); congruence).
-  rewrite Egd', Egd, Hs.
-  set (gd := fabs (s_delta st)).
-  set (sf := if jt_eqb (g_join g) JRound || et_eqb (g_end g) ERound then Some (fabs gd) else s_steps_for st).
+  rewrite !do_group_unfold.
+  assert (Egd : group_gd g (s_delta st') = group_gd g (s_delta st)).
+  { unfold group_gd. destruct (g_end g); try congruence; rewrite Hd; apply fabs_fneg. }
+  assert (Esf : group_sf g st' = group_sf g st).
+  { unfold group_sf. rewrite Egd, Hs. reflexivity. }
+  rewrite Egd, Esf.
+  set (gd := group_gd g (s_delta st)). set (sf := group_sf g st).
   destruct (path_loop_md gi g gd (s_delta st) (s_delta st') sf (g_lens g) 0 (g_end g)) as [E1 E2].
   destruct (path_loop gi g gd (s_delta st) sf 0 (g_lens g) (g_end g)) as [e1 l1],
            (path_loop gi g gd (s_delta st') sf 0 (g_lens g) (g_end g)) as [e2 l2].
@@ -310,11 +455,21 @@ Proof.
 Qed.
 
 (* satisfiability of the hypotheses of the implications above *)
-Example orientation_partial_sat :
-  forall g, In g [mkGroup [4%nat; 3%nat] JRound EPolygon true true] -> g_end g = EPolygon -> g_has_lowest g = true.
-Proof. intros g [<- | []] _. reflexivity. Qed.
-Example plan_local_partial_sat :
-  forall g, In g [mkGroup [3%nat; 2%nat] JSquare EButt false false; mkGroup [3%nat; 5%nat] JRound EJoined false false] -> no_joined_2pt g = true.
-Proof. intros g [<- | [<- | []]]; reflexivity. Qed.
 Example sign_symmetric_sat : all_open [mkGroup [2%nat; 3%nat] JSquare EJoined false false; mkGroup [1%nat] JRound ERound false false] = true.
 Proof. reflexivity. Qed.
+Example check_reverse_consistent_sat :
+  let gs := [mkGroup [0%nat] JMiter EPolygon false false; mkGroup [3%nat] JSquare EButt false false; mkGroup [4%nat; 3%nat] JRound EPolygon true true] in
+  (forall g, In g gs -> oriented g = true -> g_reversed g = true) /\ (exists g, In g gs /\ oriented g = true).
+Proof.
+  split.
+  - intros g [<- | [<- | [<- | []]]]; cbn; intros; try discriminate; reflexivity.
+  - eexists. split; [right; right; left; reflexivity|reflexivity].
+Qed.
+Example plan_order_independent_sat :
+  let g := mkGroup [2%nat; 3%nat; 1%nat] JRound EJoined false false in
+  nth_error [mkGroup [0%nat] JSquare EPolygon false false; g] 1 = Some g /\ nth_error [g; mkGroup [4%nat] JMiter EPolygon true true] 0 = Some g /\
+  map (view g) (entries_of 1 (plan [mkGroup [0%nat] JSquare EPolygon false false; g] (-10)%float))
+  = [(2%nat, 10%float, JRound, AOpen, Some ERound, Some (Some 10%float));
+     (3%nat, 10%float, JRound, AJoined, Some EJoined, Some (Some 10%float));
+     (1%nat, 10%float, JRound, APoint true, None, Some (Some 10%float))].
+Proof. repeat split; reflexivity. Qed.
